@@ -556,6 +556,25 @@ impl<I: Iterator<Item = Line>> Iterator for Reflow<I> {
     }
 }
 
+#[cfg(avt_verif)]
+impl Buffer {
+    // verification hook: every private field, all lines (scrollback + view)
+    pub(crate) fn verif_state(&self, out: &mut String) {
+        out.push_str(&format!("{} {} ", self.cols, self.rows));
+
+        match &self.scrollback_limit {
+            Some(l) => out.push_str(&format!("{} {} ", l.soft, l.hard)),
+            None => out.push_str("-1 -1 "),
+        }
+
+        out.push_str(&format!("{} {} ", self.trim_needed as u8, self.lines.len()));
+
+        for line in &self.lines {
+            line.verif_state(out);
+        }
+    }
+}
+
 #[cfg(test)]
 mod tests {
     use super::{Buffer, VisualPosition};
